@@ -499,6 +499,12 @@ def o_c09_frame(run):
         if not g.dumps or not g.ops:
             continue
         cs = {r.client for r in g.ops if r.client}
+        if not cs and all(r.op == 'reopen' for r in g.ops):
+            # a restart is nobody's request: what it does to one client's data must not depend on what other clients stored
+            for oc, ds in g.dumps.items():
+                if oc in pd and pd[oc] != ds:
+                    out.append(fail('C09: nothing belonging to a client changes except through requests made under its own id (here: across a restart of the storage)', g.ops[0], f'client {oc}: {pd[oc][:160]} -> {ds[:160]}'))
+            continue
         if len(cs) != 1:
             continue
         c = next(iter(cs))
